@@ -20,6 +20,7 @@ type taintSet struct {
 	callers  map[*ssa.Function][]ssa.CallInstruction
 	fnScope  func(*ssa.Function) bool
 	seedFlds map[fieldKey]bool
+	ctx      *taintSet // optional: a call site also counts as 'passing taint' when an argument is in ctx
 }
 
 func (t *taintSet) has(v ssa.Value) bool { return v != nil && t.in[v] }
@@ -42,7 +43,11 @@ var dataProjectors = map[string]bool{
 }
 
 func (c *Ctx) forwardSet(seeds []ssa.Value, seedFields []fieldKey, scope func(*ssa.Function) bool) *taintSet {
-	t := &taintSet{c: c, in: map[ssa.Value]bool{}, fields: map[fieldKey]bool{}, retIdx: map[*ssa.Function]map[int]bool{},
+	return c.forwardSetCtx(seeds, seedFields, scope, nil)
+}
+
+func (c *Ctx) forwardSetCtx(seeds []ssa.Value, seedFields []fieldKey, scope func(*ssa.Function) bool, ctx *taintSet) *taintSet {
+	t := &taintSet{c: c, ctx: ctx, in: map[ssa.Value]bool{}, fields: map[fieldKey]bool{}, retIdx: map[*ssa.Function]map[int]bool{},
 		callers: map[*ssa.Function][]ssa.CallInstruction{}, fnScope: scope}
 	for _, s := range seeds {
 		t.in[s] = true
@@ -148,7 +153,7 @@ func (t *taintSet) function(f *ssa.Function) {
 					}
 				}
 				if call, ok := x.Tuple.(*ssa.Call); ok {
-					if sc := call.Common().StaticCallee(); sc != nil && t.retIdx[sc][x.Index] {
+					if sc := call.Common().StaticCallee(); sc != nil && t.retIdx[sc][x.Index] && t.anyArgTainted(call) {
 						t.add(x)
 					}
 					if t.extResultTainted(call) && x.Index == 0 {
@@ -199,6 +204,10 @@ func (t *taintSet) function(f *ssa.Function) {
 							t.fields[k] = true
 							t.changed = true
 						}
+					}
+					// a struct built locally carries the data it is given (slicer objects, option structs)
+					if al, ok := a.X.(*ssa.Alloc); ok {
+						t.add(al)
 					}
 				case *ssa.IndexAddr:
 					base := baseOf(a)
@@ -257,6 +266,7 @@ func (t *taintSet) writeBack(base ssa.Value) {
 		args := cs.Common().Args
 		if idx >= 0 && idx < len(args) {
 			t.add(args[idx])
+			t.add(unwrapConv(args[idx]))
 			// and the caller's own container, transitively
 			t.writeBack(baseOf(args[idx]))
 		}
@@ -320,7 +330,7 @@ func (t *taintSet) call(f *ssa.Function, call *ssa.Call) {
 				t.add(sc.Params[i])
 			}
 		}
-		if m := t.retIdx[sc]; m != nil && sc.Signature.Results().Len() == 1 && m[0] {
+		if m := t.retIdx[sc]; m != nil && sc.Signature.Results().Len() == 1 && m[0] && t.anyArgTainted(call) {
 			t.add(call)
 		}
 		return
@@ -378,4 +388,35 @@ func (t *taintSet) call(f *ssa.Function, call *ssa.Call) {
 			}
 		}
 	}
+}
+
+// anyArgTainted: cheap context sensitivity — the result of a library call is tainted only when this
+// call site hands the callee something tainted (a method's receiver counts; a callee without
+// parameters is judged by its return alone).
+func (t *taintSet) anyArgTainted(call *ssa.Call) bool {
+	args := call.Common().Args
+	if len(args) == 0 {
+		return true
+	}
+	for _, a := range args {
+		if t.has(a) || (t.ctx != nil && t.ctx.has(a)) {
+			return true
+		}
+		for _, e := range varargElems(a) {
+			if t.has(e) || (t.ctx != nil && t.ctx.has(e)) {
+				return true
+			}
+		}
+	}
+	// receivers whose fields are tainted (attribute fields of the operator)
+	if sc := call.Common().StaticCallee(); sc != nil && sc.Signature.Recv() != nil {
+		if n := recvNamed(sc); n != nil {
+			for k := range t.fields {
+				if k.t == n {
+					return true
+				}
+			}
+		}
+	}
+	return false
 }
